@@ -9,6 +9,6 @@ export GOFLAGS=-mod=mod GOPROXY=off GOSUMDB=off GOTOOLCHAIN=local
 tests=$(go build ./... 2>&1 && go test -vet=off -count=1 ./... 2>&1 | grep -cE '^(FAIL|---)')
 echo "repo tests with change: failures=$tests"
 for id in "$@"; do
-  (cd /verif && VERIF_SEED=${VERIF_SEED:-1} bin/check $id ${TIER:-quick} 2>&1 | grep -E '^(VIOLATION|  signature|KNOWN|INCONCLUSIVE|C[0-9]+ )' | cut -c1-220)
+  (cd /verif && VERIF_EVIDENCE_DIR=/verif/out/mutant-evidence VERIF_SEED=${VERIF_SEED:-1} bin/check $id ${TIER:-quick} 2>&1 | grep -E '^(VIOLATION|  signature|KNOWN|INCONCLUSIVE|C[0-9]+ )' | cut -c1-220)
 done
 git checkout -- . ; git status --porcelain | head -3
